@@ -1,37 +1,33 @@
 package c20
 
 import (
-	"context"
 	"fmt"
-	"reflect"
+	"runtime"
 	"testing"
 	"time"
-	"unsafe"
 
-	"github.com/gittuf/gittuf/internal/luasandbox"
-	lsopts "github.com/gittuf/gittuf/internal/luasandbox/options/luasandbox"
 	lua "github.com/yuin/gopher-lua"
 )
 
-func lstateOfP(env *luasandbox.LuaEnvironment) *lua.LState {
-	f := reflect.ValueOf(env).Elem().FieldByName("lState")
-	return *(**lua.LState)(unsafe.Pointer(f.UnsafeAddr()))
-}
-
 func TestProbe(t *testing.T) {
-	t0 := time.Now()
-	for i := 0; i < 1000; i++ {
-		env, err := luasandbox.NewLuaEnvironment(context.Background(), nil, lsopts.WithLuaTimeout(1))
-		if err != nil {
-			t.Fatal(err)
+	for _, s := range []string{"local function f() return f() end return f()"} {
+		env, _, _ := newSandbox(nil, 1)
+		done := make(chan string)
+		t0 := time.Now()
+		go func() {
+			code, err := env.RunScript(s, lua.LTable{})
+			done <- fmt.Sprint(code, len(fmt.Sprint(err)), time.Since(t0))
+		}()
+		for i := 0; i < 30; i++ {
+			select {
+			case r := <-done:
+				fmt.Println(r)
+				return
+			case <-time.After(10 * time.Second):
+				var m runtime.MemStats
+				runtime.ReadMemStats(&m)
+				fmt.Println("heap MB", m.HeapAlloc>>20, time.Since(t0))
+			}
 		}
-		env.Cleanup()
 	}
-	fmt.Println("1000 envs", time.Since(t0))
-	env, _ := luasandbox.NewLuaEnvironment(context.Background(), nil, lsopts.WithLuaTimeout(1))
-	L := lstateOfP(env)
-	code, err := env.RunScript(`x = getfenv(0); string.find = 5; table.insert(string, "q"); y = ("x").__index; return 7`, lua.LTable{})
-	fmt.Println(code, err, L.GetGlobal("x") == L.Get(lua.GlobalsIndex), L.GetGlobal("string").(*lua.LTable).RawGetString("find"), L.GetGlobal("string").(*lua.LTable).RawGetInt(1), L.GetGlobal("y") == L.GetGlobal("string"))
-	code, err = env.RunScript(`string.zzz = 5 return 1`, lua.LTable{})
-	fmt.Println(code, err)
 }
